@@ -465,6 +465,11 @@ class SpecEval:
         t = to_real(v)
         return V(INT, z3.If(t >= 0, z3.ToInt(t), -z3.ToInt(-t)))
 
+    def c_parse_int(self, node):
+        """int(text) as the engine models the builtin: an uninterpreted function of the text"""
+        v = lift(self.eval(node.args[0]))
+        return V(INT, self.eng.parse_int_fn()(v.t))
+
     def c_is_none(self, node):
         return V(BOOL, self.eng.equal(self.st, self.eval(node.args[0]), VNONE))
 
